@@ -120,7 +120,7 @@ pub fn check_texts(texts: &[String]) -> Check {
 }
 
 pub fn run_shared_formulas(ctx: &mut Ctx) -> Result<(), Violation> {
-    let cases = ctx.tier.pick(8_000, 100_000);
+    let cases = ctx.tier.cases(8_000, 100_000);
     let r = par_random(ctx, "shared-formulas", cases, 600, |tape, st| {
         let mut t = Tape::new(tape);
         let n = 2 + t.choose(5);
